@@ -172,3 +172,21 @@ Proof.
   assert (X / 65536 <= 32767) by (apply Z.lt_succ_r; apply Z.div_lt_upper_bound; lia).
   lia.
 Qed.
+
+(* color::premultiply_u8 (src/color.rs): never overflows on bytes and is the hand-written definition of Model/Pixel.v,
+   i.e. round(c * a / 255) (the value theorems of C12 / C17 are about Pixel.premultiply_u8) *)
+From TS Require Model.Pixel.
+Lemma premultiply_u8_eq c a : 0 <= c <= 255 -> 0 <= a <= 255 -> FixedGen.premultiply_u8 c a = Some (Pixel.premultiply_u8 c a).
+Proof.
+  intros Hc Ha. unfold FixedGen.premultiply_u8, Pixel.premultiply_u8, ck_u, in_u. change (2 ^ 32 - 1) with 4294967295.
+  assert (P : 0 <= c * a <= 65025) by nia.
+  assert (E1 : (0 <=? c * a) && (c * a <=? 4294967295) = true) by (apply andb_true_iff; split; apply Z.leb_le; lia).
+  rewrite E1. cbn [obind].
+  assert (E2 : (0 <=? c * a + 128) && (c * a + 128 <=? 4294967295) = true) by (apply andb_true_iff; split; apply Z.leb_le; lia).
+  rewrite E2. cbn [obind]. unfold shr.
+  assert (S8 : 0 <= Z.shiftr (c * a + 128) 8 <= 65153).
+  { rewrite Z.shiftr_div_pow2 by lia. change (2 ^ 8) with 256. split; [apply Z.div_pos; lia | apply Z.div_le_upper_bound; lia]. }
+  assert (E3 : (0 <=? c * a + 128 + Z.shiftr (c * a + 128) 8) && (c * a + 128 + Z.shiftr (c * a + 128) 8 <=? 4294967295) = true)
+    by (apply andb_true_iff; split; apply Z.leb_le; lia).
+  rewrite E3. cbn [obind]. unfold wrap_u. change (2 ^ 8) with 256. reflexivity.
+Qed.
